@@ -19,8 +19,14 @@ def run(tier, seed):
 
     def t_names():
         info["hash"] = names.translate_hashfunc()
-        info["names"] = names.translate_names()
-        names.dump_text(info["names"], dump)
+        sink = {}
+        try:
+            info["names"] = names.translate_names(sink=sink)
+        finally:
+            # the tables are dumped even when a pinned function body changed shape: the failing-input search needs them
+            if sink:
+                info.setdefault("names_tables", sink)
+                names.dump_text(sink, dump)
         return True
 
     def t_versions():
@@ -33,7 +39,7 @@ def run(tier, seed):
         return True
 
     def t_spec():
-        d = spec.translate_spec(info.get("names"))
+        d = spec.translate_spec(info.get("names") or info.get("names_tables"))
         spec.dump_spec_text(d, dump)
         info["spec"] = d
         return True
@@ -58,7 +64,7 @@ def run(tier, seed):
     avh = lib.harness_build(ctx)
     avm = build_model_runner(ctx)
     disagreements = []
-    if avh and translated:
+    if avh and (translated or info.get("names_tables")):
         rc, out, dt = lib.harness_run(avh, ["names", dump, str(seed), tier])
         open(os.path.join(WORK, "c18_impl_names.txt"), "w").write(out)
         stats = [l for l in out.split("\n") if l.startswith("STAT")]
